@@ -21,7 +21,7 @@ OVERRIDES = K.OVERRIDES
 
 
 def caps(tier):
-    return dict(rest=42, store=3) if tier == "quick" else dict(rest=52, store=3)
+    return dict(rest=42, store=3, wide=50) if tier == "quick" else dict(rest=52, store=3, wide=62)
 
 
 def py_strip(data):
@@ -51,21 +51,24 @@ def make_queries(tier):
     C = caps(tier)
     NCH = C["rest"] // 12
 
+    WCH = C["wide"] // 12
+
     def q_png_remove_is_strip(E):
         """removal deletes exactly the manifest chunk: remove(x) == x without its caBX chunk"""
-        data, rest = K.png_input(E, C["rest"])
+        data, rest = K.png_input(E, C["wide"])
         if E.mode != "symbolic":
             w = E.native("png_remove", [_j(data)])
             E.prove("removal yields the asset without its manifest chunk and nothing else changed", z3.BoolVal((not w["ok"]) or w["out"] == py_strip(_j(data))))
             return
         I = E.I
-        I.loop_bound = NCH + 2
-        valid, st, ncabx = K.valid_png(data.e, NCH)
+        I.loop_bound = WCH + 2
+        valid, st, ncabx = K.valid_png(data.e, WCH)
         E.assume(valid)
         rm, out = K.run_remove(E, data)
-        want, has = K.strip_cabx(data.e, st, C["rest"] + 8)
+        want, has = K.strip_cabx(data.e, st, C["wide"] + 8)
         E.prove("removal yields the asset without its manifest chunk and nothing else changed", z3.Implies(is_ok(rm), bstr.eq(out.e, want)))
         E.cover("manifest between two other chunks removed", z3.And(is_ok(rm), st[1]["here"], st[1]["is_cabx"]))
+        E.cover("manifest preceded by another chunk removed", z3.And(is_ok(rm), st[2]["here"], st[2]["is_cabx"]))
         E.cover("no manifest: output equals input", z3.And(is_ok(rm), z3.Not(has)))
 
     def mk_preserve(case):
@@ -137,7 +140,29 @@ def make_queries(tier):
         E.prove("remove(write(x, s)) == remove(x)", z3.Implies(is_ok(wr), z3.And(is_ok(rm1), is_ok(rm0), bstr.eq(o1.e, o0.e))))
         E.cover("reached with an existing manifest", z3.And(is_ok(wr), ncabx == bv(1)))
 
-    qs = [q_png_remove_is_strip] + [mk_preserve(c) for c in range(0, NCH - 1)]
+    def q_png_write_preserves_length(E):
+        """embedding or replacing neither drops nor duplicates bytes: |write(x, s)| == |strip(x)| + 12 + |s| (one more chunk than the
+        byte-exact queries; lengths only)"""
+        data, rest = K.png_input(E, C["wide"])
+        store = E.str("store", C["store"], "bytes")
+        if E.mode != "symbolic":
+            w = E.native("png_write", [_j(data), _j(store)])
+            E.prove("the written asset is exactly one manifest chunk longer than the asset without its old manifest",
+                    z3.BoolVal((not w["ok"]) or len(w["out"]) == len(py_strip(_j(data))) + 12 + len(_j(store))))
+            return
+        I = E.I
+        I.loop_bound = WCH + 2
+        valid, st, ncabx = K.valid_png(data.e, WCH)
+        E.assume(valid)
+        wr, out = K.run_write(E, data, store)
+        old_len = bv(0)
+        for s_ in st:
+            old_len = old_len + z3.If(z3.And(s_["here"], s_["is_cabx"]), s_["end"] - s_["start"], bv(0))
+        E.prove("the written asset is exactly one manifest chunk longer than the asset without its old manifest",
+                z3.Implies(is_ok(wr), out.e.n == data.e.n - old_len + bv(12) + store.e.n))
+        E.cover("old manifest preceded by another chunk", z3.And(is_ok(wr), st[2]["here"], st[2]["is_cabx"]))
+
+    qs = [q_png_remove_is_strip, q_png_write_preserves_length] + [mk_preserve(c) for c in range(0, NCH - 1)]
     if tier == "thorough":
         qs.append(q_png_remove_after_write)
     return qs
